@@ -18,7 +18,7 @@ use cryptoxide::{blake2b::Blake2b, digest::Digest};
 use pallas_codec::minicbor;
 use pallas_codec::utils::{Bytes, CborWrap, MaybeIndefArray, NonEmptyKeyValuePairs, NonEmptySet, Nullable, Set};
 use pallas_primitives::conway::{
-    Anchor, GovAction, GovActionId, ProposalProcedure, Vote, Voter, VotingProcedure,
+    Anchor, DRep, GovAction, GovActionId, ProposalProcedure, Vote, Voter, VotingProcedure,
     Certificate, CostModels, DatumOption, ExUnits, Language, MintedTx, PlutusScript,
     PostAlonzoTransactionOutput, PseudoScript, PseudoTransactionOutput, Redeemer, RedeemerTag,
     Redeemers, RedeemersKey, RedeemersValue, StakeCredential, TransactionBody, TransactionInput,
@@ -74,6 +74,9 @@ pub struct ScriptUse {
     /// Script delivered through a reference input instead of the witness set.
     pub by_reference: bool,
     pub unique: u32,
+    /// For `Purpose::Cert`: which certificate the script authorises (see `script_certificate`).
+    #[serde(default)]
+    pub cert_kind: u8,
 }
 
 #[derive(Clone, Debug, Serialize, Deserialize, PartialEq)]
@@ -127,6 +130,10 @@ pub struct Scenario {
     /// ledger's indices always follow the sorted order, whatever order the body was written in).
     #[serde(default)]
     pub permute_body: u64,
+    /// Certificates that need no script (key credentials, legacy registration, pool retirement,
+    /// a script credential in a position that authorises nothing) interleaved with the others.
+    #[serde(default)]
+    pub noise_certs: u8,
 }
 
 // ------------------------------------------------------------------------------------------
@@ -275,7 +282,7 @@ pub fn assemble(sc: &Scenario) -> Result<Assembled, String> {
     let mut witness_datums: Vec<(PlutusData, usize)> = vec![];
     let mut mint: Vec<([u8; 28], usize)> = vec![];
     let mut withdrawals: Vec<(Vec<u8>, usize)> = vec![];
-    let mut certs: Vec<(Certificate, usize)> = vec![];
+    let mut certs: Vec<(Certificate, Option<usize>)> = vec![];
     let mut voters: Vec<([u8; 28], usize)> = vec![];
     let mut proposals: Vec<([u8; 28], usize)> = vec![];
     // spend: (input, script idx, datum)
@@ -300,10 +307,7 @@ pub fn assemble(sc: &Scenario) -> Result<Assembled, String> {
         match &s.purpose {
             Purpose::Mint => mint.push((b.hash, i)),
             Purpose::Withdraw => withdrawals.push((script_reward_account(&b.hash), i)),
-            Purpose::Cert => certs.push((
-                Certificate::StakeDeregistration(StakeCredential::ScriptHash(pallas_crypto_hash28(&b.hash))),
-                i,
-            )),
+            Purpose::Cert => certs.push((script_certificate(s.cert_kind, &b.hash, &mut Rng::new(sc.tx_seed ^ (0xce57 + i as u64))), Some(i))),
             Purpose::Vote => voters.push((b.hash, i)),
             Purpose::Propose => proposals.push((b.hash, i)),
             Purpose::Spend { inline_datum } => {
@@ -360,7 +364,15 @@ pub fn assemble(sc: &Scenario) -> Result<Assembled, String> {
             datum: None,
         });
     }
+    if sc.noise_certs > 0 {
+        let mut r = Rng::new(sc.tx_seed ^ 0x6e6f_6973_65);
+        for _ in 0..sc.noise_certs {
+            let at = r.usize_below(certs.len() + 1);
+            certs.insert(at, (noise_certificate(&mut r), None));
+        }
+    }
     for (pos, (_, si)) in certs.iter().enumerate() {
+        let Some(si) = si else { continue };
         plan.push(PlannedRedeemer {
             tag: RedeemerTag::Cert,
             index: pos as u32,
@@ -582,6 +594,79 @@ pub fn assemble(sc: &Scenario) -> Result<Assembled, String> {
         plan: visit,
         dropped,
     })
+}
+
+
+fn some_anchor(rng: &mut Rng) -> Nullable<Anchor> {
+    if rng.chance(1, 2) {
+        Nullable::Some(Anchor { url: "https://example.invalid/a".into(), content_hash: pallas_crypto_hash32(&rng.bytes(32)) })
+    } else {
+        Nullable::Null
+    }
+}
+
+fn rand28(rng: &mut Rng) -> pallas_crypto::hash::Hash<28> {
+    let mut a = [0u8; 28];
+    a.copy_from_slice(&rng.bytes(28));
+    pallas_crypto::hash::Hash::from(a)
+}
+
+/// A credential that authorises nothing in the position it is put: a key hash, or the hash of a
+/// script nobody supplies.
+fn bystander(rng: &mut Rng) -> StakeCredential {
+    if rng.chance(1, 2) { StakeCredential::AddrKeyhash(rand28(rng)) } else { StakeCredential::ScriptHash(rand28(rng)) }
+}
+
+fn some_drep(rng: &mut Rng) -> DRep {
+    match rng.below(4) {
+        0 => DRep::Key(rand28(rng)),
+        1 => DRep::Script(rand28(rng)),
+        2 => DRep::Abstain,
+        _ => DRep::NoConfidence,
+    }
+}
+
+pub const CERT_KINDS: u8 = 13;
+
+/// The certificate of kind `kind` whose authorising credential (per the Conway ledger: the
+/// stake credential of delegation / deregistration certificates, the DRep credential of DRep
+/// certificates, the committee COLD credential of hot-key authorisation and resignation) is the
+/// script `hash`; every other credential in it is a bystander.
+fn script_certificate(kind: u8, hash: &[u8; 28], rng: &mut Rng) -> Certificate {
+    let me = StakeCredential::ScriptHash(pallas_crypto_hash28(hash));
+    let coin = 2_000_000u64;
+    match kind % CERT_KINDS {
+        0 => Certificate::StakeDeregistration(me),
+        1 => Certificate::StakeDelegation(me, rand28(rng)),
+        2 => Certificate::UnReg(me, coin),
+        3 => Certificate::VoteDeleg(me, some_drep(rng)),
+        4 => Certificate::StakeVoteDeleg(me, rand28(rng), some_drep(rng)),
+        5 => Certificate::StakeRegDeleg(me, rand28(rng), coin),
+        6 => Certificate::VoteRegDeleg(me, some_drep(rng), coin),
+        7 => Certificate::StakeVoteRegDeleg(me, rand28(rng), some_drep(rng), coin),
+        8 => Certificate::AuthCommitteeHot(me, bystander(rng)),
+        9 => Certificate::ResignCommitteeCold(me, some_anchor(rng)),
+        10 => Certificate::RegDRepCert(me, coin, some_anchor(rng)),
+        11 => Certificate::UnRegDRepCert(me, coin),
+        _ => Certificate::UpdateDRepCert(me, some_anchor(rng)),
+    }
+}
+
+/// A certificate that needs no script at all.
+fn noise_certificate(rng: &mut Rng) -> Certificate {
+    let key = StakeCredential::AddrKeyhash(rand28(rng));
+    match rng.below(8) {
+        // legacy registration needs no witness, whatever the credential
+        0 => Certificate::StakeRegistration(bystander(rng)),
+        1 => Certificate::StakeDeregistration(key),
+        2 => Certificate::StakeDelegation(key, rand28(rng)),
+        3 => Certificate::PoolRetirement(rand28(rng), 400 + rng.below(100)),
+        4 => Certificate::VoteDeleg(key, DRep::Script(rand28(rng))),
+        // a script as the HOT credential authorises nothing: the cold one signs
+        5 => Certificate::AuthCommitteeHot(key, StakeCredential::ScriptHash(rand28(rng))),
+        6 => Certificate::UpdateDRepCert(key, some_anchor(rng)),
+        _ => Certificate::UnReg(key, 2_000_000),
+    }
 }
 
 fn pallas_crypto_hash32(b: &[u8]) -> pallas_crypto::hash::Hash<32> {
@@ -1077,6 +1162,12 @@ fn gen_scenario(rng: &mut Rng) -> Scenario {
         scripts.push(ScriptUse {
             version,
             behaviour,
+            cert_kind: if purpose == Purpose::Cert {
+                // Conway-only certificates have no Plutus V1/V2 script context
+                if version == 3 { rng.below(CERT_KINDS as u64) as u8 } else { rng.below(2) as u8 }
+            } else {
+                0
+            },
             purpose,
             by_reference: !with_v1 && rng.chance(1, 4),
             unique: rng.below(1 << 30) as u32 + i as u32,
@@ -1107,6 +1198,7 @@ fn gen_scenario(rng: &mut Rng) -> Scenario {
         7 => BudgetChoice::MaxSingle,
         _ => BudgetChoice::Ample,
     };
+    let all_v3 = scripts.iter().all(|s| s.version == 3);
     Scenario {
         scripts,
         plain_inputs: rng.usize_below(3),
@@ -1124,6 +1216,7 @@ fn gen_scenario(rng: &mut Rng) -> Scenario {
         redeemers_as_map: rng.chance(1, 2),
         run_phase_one: rng.chance(3, 4),
         permute_body: if rng.chance(1, 2) { rng.next_u64() | 1 } else { 0 },
+        noise_certs: if all_v3 && rng.chance(1, 2) { 1 + rng.below(3) as u8 } else { 0 },
     }
 }
 
